@@ -107,6 +107,7 @@ Proof. exact lr_driver_examples. Qed.
 (* ==== TERMINATION of the parser front end (C05.LrTermModel / LrTermination / LrTermDriver / LexProgress).  Finite checks on the tables
         regenerated from feel-parser/src/lalr.rs (re-proved whenever lalr.rs changes), lifted to EVERY token sequence / every text. *)
 From DV Require C06.Model C06.Lexer C06.Lr C06.Actions C06.ActionsAutomaton C06.ActionsGlobal C10.Model.
+From DV Require C05.DtdSum.
 From DV Require Import C05.LrTermModel C05.LrTermination C05.LrTermDriver C05.LexProgressModel C05.LexProgress.
 
 (* ---- the loop of Parser::parse on the state stack alone (kstep / krun: shift, reduce + goto, default reductions, accept, error, over the
@@ -225,6 +226,21 @@ Proof. exact (conj ym_parse_orig_refuted_debug_mul (conj ym_parse_orig_refuted_d
 Theorem C05_odometer_orig_refuted : (initial (range_state isize_max isize_max) /\ run_orig Debug 5 [range_state isize_max isize_max] [] = RunPanic) /\
   (total [range_state isize_max isize_max] = 1 /\ run_orig Release 2000 [range_state isize_max isize_max] [] = OutOfFuel).
 Proof. exact (conj odometer_orig_refuted_debug odometer_orig_refuted_release). Qed.
+(* ---- listed finding dtd-sum-beyond-i128 (C05/DtdSum.v): the sum of two days-and-time durations is an unchecked i128 addition of nanoseconds.
+   Outside the class (the exact sum fits i128) it is exact in both builds; inside it the build with overflow checks panics and the other returns a
+   value that is not the sum; the panic happens exactly on the class.  Witness: the largest literal doubled 16 times fits, 17 times does not. *)
+Theorem C05_dtd_sum_exact_unless_known : forall b x y, ~ C05.DtdSum.beyond_i128 x y -> C05.DtdSum.dtd_add b x y = MOk (x + y).
+Proof. exact C05.DtdSum.dtd_add_exact. Qed.
+Theorem C05_dtd_sum_known_class : forall x y, C05.DtdSum.beyond_i128 x y ->
+  C05.DtdSum.dtd_add Debug x y = MTrap /\ exists z, C05.DtdSum.dtd_add Release x y = MOk z /\ z <> x + y.
+Proof. exact C05.DtdSum.dtd_add_beyond. Qed.
+Theorem C05_dtd_sum_traps_iff : forall x y, C05.DtdSum.dtd_add Debug x y = MTrap <-> C05.DtdSum.beyond_i128 x y.
+Proof. exact C05.DtdSum.dtd_add_traps_iff. Qed.
+Theorem C05_dtd_sum_total_refuted :
+  C05.DtdSum.doubled 16 C05.DtdSum.max_literal_ns = MOk (2 ^ 16 * C05.DtdSum.max_literal_ns) /\ C05.DtdSum.doubled 17 C05.DtdSum.max_literal_ns = MTrap /\
+  C05.DtdSum.doubled 16 (- C05.DtdSum.max_literal_ns) = MOk (- (2 ^ 16 * C05.DtdSum.max_literal_ns)) /\ C05.DtdSum.doubled 17 (- C05.DtdSum.max_literal_ns) = MTrap.
+Proof. exact C05.DtdSum.doubling_witness. Qed.
+
 Print Assumptions C05_sublist3_no_panic.
 Print Assumptions C05_sublist2_no_panic.
 Print Assumptions C05_substring3_no_panic.
@@ -284,3 +300,7 @@ Print Assumptions C05_layout_scan_settles.
 Print Assumptions C05_layout_scan_fuel.
 Print Assumptions C05_name_collector_stops.
 Print Assumptions C05_lex_progress_example.
+Print Assumptions C05_dtd_sum_exact_unless_known.
+Print Assumptions C05_dtd_sum_known_class.
+Print Assumptions C05_dtd_sum_traps_iff.
+Print Assumptions C05_dtd_sum_total_refuted.
